@@ -89,7 +89,7 @@ impl DwarfRegistry {
             &mut full_it
         };
 
-        iter.for_each(|(file, _)| {
+        iter.for_each(|(file, dwarf)| {
             let absolute_debugee_path_buf =
                 file.canonicalize().expect("canonicalize path must exists");
             let absolute_debugee_path = absolute_debugee_path_buf.as_path();
@@ -112,7 +112,11 @@ impl DwarfRegistry {
                 .max_by(|map1, map2| map1.start().cmp(&map2.start()))
                 .expect("at least one mapping must exists");
 
-            let mapping = lower_sect.start();
+            // load bias: where the object is mapped minus where it was linked to
+            // (zero link address for position-independent objects)
+            let mapping = lower_sect
+                .start()
+                .saturating_sub(dwarf.image_base() as usize);
 
             let range = RegionRange {
                 from: RelocatedAddress::from(lower_sect.start()),
